@@ -1,14 +1,19 @@
-"""Generous may-flow of local values ("can the value bound here end up in that call?").
+"""Generous may-flow of local values ("can the value bound here end up in that call / assignment?").
 
- MayFlow(F).run(fn, ids) -> {top-level fn path: set(local ids)}: every local that may hold (a part of, a reference to, or a
- value computed from) one of the start locals. OVER-approximation on purpose: a local is reached as soon as the expression it
- is bound from / assigned from / iterates over merely mentions a reached local (incl. inside closures created there); a
- container is reached when something reached is pushed / inserted / extended into it; parameters of crate-local callees are
- reached when the argument mentions a reached local (callees are followed to a bounded depth); closure parameters are reached
- when another argument of the call that takes the closure mentions a reached local.
+ mf = MayFlow(F); mf.run(fn, ids) -> {top-level fn path: set(local ids)}: every local that may hold (a part of, a reference to,
+ or a value computed from) one of the start locals. OVER-approximation on purpose:
+  - a local is reached as soon as the expression it is bound from / assigned from / iterates over merely mentions a reached
+    local (closures created in that expression included);
+  - a container is reached when something reached is pushed / inserted / extended into it;
+  - parameters of crate-local callees are reached when the argument mentions a reached local (callees are followed to a
+    bounded depth), and a call is itself a reached expression when the callee may return something reached;
+  - closure parameters are reached when another argument of the call that takes the closure (literally or through a local
+    the closure is bound to) mentions a reached local, or when the closure is called with such an argument;
+  - seed(node): expressions that are sources themselves (e.g. reads of one particular struct field).
 Because it over-approximates, `no reached local is used by X` is evidence that the value does NOT get to X; `is used by X` is
 only evidence that it may. Rules use the first direction for `violated` and combine the second with further checks for `holds`."""
 from . import thir as T
+from . import bindsrc as B
 
 CONTAINER_STORE = ("push", "insert", "extend", "append", "push_back", "push_front", "extend_from_slice", "entry", "or_insert", "replace", "get_or_insert_with")
 
@@ -17,10 +22,12 @@ class MayFlow:
     def __init__(self, F, max_depth=3, seed=None):
         self.F = F
         self.max_depth = max_depth
-        # seed(node) -> bool: expressions that are sources themselves (e.g. a read of a particular struct field)
         self.seed = seed
         self.reached = {}   # group path -> set(ids)
+        self.depth = {}     # group path -> call depth at which it was entered
+        self.ret = set()    # paths of functions whose result may carry a reached value
 
+    # ---- structure
     def group(self, fn):
         f = fn
         while f.get("dk") == "Closure" and "parent" in f and f["parent"] in self.F.by_path:
@@ -30,6 +37,26 @@ class MayFlow:
     def bodies(self, g):
         return [g] + self.F.closures(g)
 
+    def callee(self, n):
+        g = self.F.by_path.get(n.get("r") or "") or self.F.by_path.get(n.get("f") or "")
+        if g is not None and g.get("dk") in ("Fn", "AssocFn"):
+            return g
+        return None
+
+    def closure_of(self, g, arg):
+        ap = T.peel(arg)
+        if ap.get("k") == "Closure":
+            return self.F.by_path.get(ap.get("d"))
+        if ap.get("k") in ("Var", "Upvar"):
+            for b in self.bodies(g):
+                src, how = B.binder(b["body"], ap["id"])
+                if src is not None:
+                    sp = T.peel(src)
+                    if sp.get("k") == "Closure":
+                        return self.F.by_path.get(sp.get("d"))
+                    return None
+        return None
+
     def mentions(self, node, ids, _depth=0):
         for x in T.walk(node):
             k = x.get("k")
@@ -37,25 +64,43 @@ class MayFlow:
                 return True
             if self.seed is not None and self.seed(x):
                 return True
+            if k == "Call" and self.ret:
+                c = self.callee(x)
+                if c is not None and c["path"] in self.ret:
+                    return True
             if k == "Closure" and _depth < 4:
                 c = self.F.by_path.get(x.get("d"))
                 if c is not None and self.mentions(c["body"], ids, _depth + 1):
                     return True
         return False
 
-    def callee(self, n):
-        g = self.F.by_path.get(n.get("r") or "") or self.F.by_path.get(n.get("f") or "")
-        if g is not None and g.get("dk") in ("Fn", "AssocFn"):
-            return g
-        return None
-
-    def run(self, fn, ids, depth=0):
+    # ---- solving
+    def add(self, fn, ids, depth=0):
         g = self.group(fn)
         cur = self.reached.setdefault(g["path"], set())
-        new = set(ids) - cur
-        if not new and depth > 0 and self.seed is None:
-            return self.reached
+        self.depth[g["path"]] = min(self.depth.get(g["path"], depth), depth)
+        before = len(cur)
         cur |= set(ids)
+        return len(cur) != before
+
+    def run(self, fn, ids):
+        self.add(fn, ids)
+        self.solve()
+        return self.reached
+
+    def solve(self):
+        for _round in range(40):
+            changed = False
+            for gp in list(self.reached):
+                if self._step(self.F.by_path[gp]):
+                    changed = True
+            if not changed:
+                break
+
+    def _step(self, g):
+        cur = self.reached[g["path"]]
+        depth = self.depth.get(g["path"], 0)
+        any_change = False
         changed = True
         while changed:
             changed = False
@@ -65,6 +110,12 @@ class MayFlow:
                 if i is not None and i not in cur:
                     cur.add(i)
                     changed = True
+
+            def add_params(c):
+                for p_ in c["params"]:
+                    if p_.get("p"):
+                        for (i, _n, _p) in T.pat_bindings(p_["p"]):
+                            add(i)
             for b in self.bodies(g):
                 for n in T.walk(b["body"]):
                     k = n.get("k")
@@ -86,16 +137,14 @@ class MayFlow:
                             add(T.root_var_id(args[0]))
                         hit = [self.mentions(a, cur) for a in args]
                         if any(hit):
-                            # closure arguments: their parameters receive (parts of) the other arguments
-                            for a in args:
-                                ap = T.peel(a)
-                                if ap.get("k") == "Closure":
-                                    c = self.F.by_path.get(ap.get("d"))
-                                    if c is not None:
-                                        for p_ in c["params"]:
-                                            if p_.get("p"):
-                                                for (i, _n, _p) in T.pat_bindings(p_["p"]):
-                                                    add(i)
+                            if n.get("n") in ("call", "call_mut", "call_once") and args:
+                                c = self.closure_of(g, args[0])
+                                if c is not None and any(hit[1:]):
+                                    add_params(c)
+                            for j, a in enumerate(args):
+                                c = self.closure_of(g, a)
+                                if c is not None and any(h for jj, h in enumerate(hit) if jj != j):
+                                    add_params(c)
                             callee = self.callee(n)
                             if callee is not None and depth < self.max_depth and len(callee["params"]) == len(args):
                                 pids = set()
@@ -103,11 +152,25 @@ class MayFlow:
                                     if h and p_.get("p"):
                                         pids |= {i for (i, _n, _p) in T.pat_bindings(p_["p"])}
                                 if pids and self.group(callee)["path"] != g["path"]:
-                                    self.run(callee, pids, depth + 1)
-        return self.reached
+                                    if self.add(callee, pids, depth + 1):
+                                        any_change = True
+            if changed:
+                any_change = True
+        # may the function's result carry something reached?
+        if g.get("dk") in ("Fn", "AssocFn") and g["path"] not in self.ret:
+            outs = [n["e"] for n in T.walk(g["body"]) if n.get("k") == "Return" and n.get("e") is not None]
+            body = T.peel(g["body"])
+            if body.get("k") == "Block" and body.get("e") is not None:
+                outs.append(body["e"])
+            elif body.get("k") != "Block":
+                outs.append(body)
+            if any(self.mentions(o, cur) for o in outs):
+                self.ret.add(g["path"])
+                any_change = True
+        return any_change
 
     def uses(self, pred):
-        """[(group path, node)] call nodes satisfying pred(node) one of whose arguments mentions a reached local of its group"""
+        """[(group path, body record, node)] call nodes satisfying pred(node) one of whose arguments mentions a reached local"""
         out = []
         for gp, ids in self.reached.items():
             g = self.F.by_path[gp]
@@ -115,4 +178,15 @@ class MayFlow:
                 for n in T.walk(b["body"]):
                     if n.get("k") == "Call" and pred(n) and any(self.mentions(a, ids) for a in n.get("a", [])):
                         out.append((gp, b, n))
+        return out
+
+    def assigned(self):
+        """[(group path, Assign node)] assignments through a reached local (`*target = ..`, `target.field = ..`)"""
+        out = []
+        for gp, ids in self.reached.items():
+            g = self.F.by_path[gp]
+            for b in self.bodies(g):
+                for n in T.walk(b["body"]):
+                    if n.get("k") in ("Assign", "AssignOp") and T.root_var_id(n["l"]) in ids:
+                        out.append((gp, n))
         return out
